@@ -1,21 +1,135 @@
-(* C10 — model of the material-card path:
-     MIP/geom/composition.py get_material_composition   (params.split())
+(* C10 — model of the material-card path, as the code DOES it:
+     MIP/mip/datacard.py split (re_data)                [data_split]
+     MIP/geom/composition.py get_material_composition   [material_head, get_materials]
      Composition/CCompositionMCNP.py                    [pairs]
-     Composition/ConvertIsotope.py + the two enums      [convert_isotope]
-     Composition/CompositionConversionMCNPToT4.py       [convert_card, str_fabs]
-     Composition/ConstructCompositionT4.py              [isotope_name, rescale, block_of]
-     FileHandlers/Writer/WriteT4Composition.py          [block_of: DENSITY/NB_ATOM vs POINT_WISE]
-   Executable; proofs live in C10/Proofs.v. *)
+     Composition/ConvertIsotope.py + the two enums      [atomic_value, element_name, convert_isotope]
+     Composition/CompositionConversionMCNPToT4.py       [convert_entries, convert_card, convert_all, str_fabs]
+     Composition/ConstructCompositionT4.py              [live, extract, rescale, scan, construct]
+     FileHandlers/Writer/WriteT4Composition.py          [header_line, block_lines, composition_lines]
+   Executable; proofs live in C10/Proofs*.v.  Numbers: the code's
+   float(normalize_float(s)), normalize_float(s) and f'{x:.15e}' are
+   parameters [fval], [norm], [rend] of the model (normalize_float itself is
+   C09's); everything else is computed here. *)
 From Coq Require Import List NArith ZArith Bool String Ascii.
 From T4V Require Import Base.Str Base.Scalar.
 Import ListNotations.
 Open Scope string_scope.
 
 (* Python exception classes the path can raise *)
-Inductive err := EIndex | EValue | EAttribute | EMixedSigns.
+Inductive err := EIndex | EValue | EAttribute | EMixedSigns | EType | EZeroDiv.
 Inductive res (A : Type) := Ok (a : A) | Err (e : err).
 Arguments Ok {A}. Arguments Err {A}.
 
+Definition bind {A B} (r : res A) (f : A -> res B) : res B :=
+  match r with Ok a => f a | Err e => Err e end.
+
+Fixpoint mapM {A B} (f : A -> res B) (l : list A) : res (list B) :=
+  match l with
+  | [] => Ok []
+  | x :: r => match f x with
+              | Err e => Err e
+              | Ok y => match mapM f r with Ok ys => Ok (y :: ys) | Err e => Err e end
+              end
+  end.
+
+(* ------------------------------------------------------------------ *)
+(* characters and words                                                 *)
+(* ------------------------------------------------------------------ *)
+(* \s on the ASCII subset: blank, \t \n \v \f \r *)
+Definition is_ws (c : ascii) : bool :=
+  let n := N_of_ascii c in (n =? 32)%N || ((9 <=? n)%N && (n <=? 13)%N).
+Definition is_alpha (c : ascii) : bool :=
+  let n := N_of_ascii c in ((65 <=? n)%N && (n <=? 90)%N) || ((97 <=? n)%N && (n <=? 122)%N).
+Definition is_star (c : ascii) : bool := Ascii.eqb c "*".
+Definition not_digit (c : ascii) : bool := negb (is_digit c).
+
+Definition lower_char (c : ascii) : ascii :=
+  let n := N_of_ascii c in if ((65 <=? n)%N && (n <=? 90)%N) then ascii_of_N (n + 32) else c.
+Fixpoint lower (s : string) : string :=
+  match s with EmptyString => EmptyString | String c r => String (lower_char c) (lower r) end.
+
+(* longest prefix whose characters satisfy p, and the rest (a greedy
+   character-class star of a regular expression) *)
+Fixpoint span (p : ascii -> bool) (s : string) : string * string :=
+  match s with
+  | EmptyString => (EmptyString, EmptyString)
+  | String c r => if p c then let (a, b) := span p r in (String c a, b) else (EmptyString, s)
+  end.
+
+(* str.split(): maximal runs of non-blank characters *)
+Fixpoint split_ws_aux (s : string) (cur : string) : list string :=
+  (* cur = the current word so far *)
+  match s with
+  | EmptyString => match cur with EmptyString => [] | _ => [cur] end
+  | String c r =>
+      if is_ws c then match cur with EmptyString => split_ws_aux r EmptyString
+                                   | _ => cur :: split_ws_aux r EmptyString end
+      else split_ws_aux r (cur ++ String c EmptyString)
+  end.
+Definition split_ws (s : string) : list string := split_ws_aux s EmptyString.
+
+(* ------------------------------------------------------------------ *)
+(* data cards                                                           *)
+(* ------------------------------------------------------------------ *)
+(* datacard.split: re_data on the one-line content of a card, anchored at both
+   ends: blanks; group 1 = stars, then one or more ASCII letters, then
+   non-digits; group 2 = digits; group 3 = an optional star; group 4 = the
+   rest.  Every class is disjoint from what must follow it or the next group
+   may be empty, so the greedy match needs no backtracking.
+   None = no match (the code then fails with AttributeError on m.groups()). *)
+Definition data_split (txt : string) : option (string * string * string * string) :=
+  let (_, s1) := span is_ws txt in
+  let (stars, s2) := span is_star s1 in
+  let (letters, s3) := span is_alpha s2 in
+  match letters with
+  | EmptyString => None
+  | _ =>
+      let (nondig, s4) := span not_digit s3 in
+      let (digits, s5) := span is_digit s4 in
+      let (star, s6) := match s5 with
+                        | String "*" r => ("*", r)
+                        | _ => (EmptyString, s5)
+                        end in
+      Some (stars ++ letters ++ nondig, digits, star, s6)
+  end.
+
+(* Card.parts() of a data card + the test of get_material_composition:
+   dtype = star + typ; a material card iff dtype.lower() == 'm'; then
+   name = int(name) (ValueError on ''), params = params.split() *)
+Definition material_head (txt : string) : res (option (N * list string)) :=
+  match data_split txt with
+  | None => Err EAttribute
+  | Some (typ, name, star, params) =>
+      if String.eqb (lower (star ++ typ)) "m" then
+        match int_of_string name with
+        | None => Err EValue
+        | Some n => Ok (Some (n, split_ws params))
+        end
+      else Ok None
+  end.
+
+(* OrderedDict assignment: a key seen before keeps its place *)
+Fixpoint dict_set {V} (k : N) (v : V) (d : list (N * V)) : list (N * V) :=
+  match d with
+  | [] => [(k, v)]
+  | (k', v') :: r => if (k =? k')%N then (k, v) :: r else (k', v') :: dict_set k v r
+  end.
+
+Fixpoint get_materials_from (cards : list string) (acc : list (N * list string))
+  : res (list (N * list string)) :=
+  match cards with
+  | [] => Ok acc
+  | c :: r => match material_head c with
+              | Err e => Err e
+              | Ok None => get_materials_from r acc
+              | Ok (Some (n, toks)) => get_materials_from r (dict_set n toks acc)
+              end
+  end.
+Definition get_materials (cards : list string) := get_materials_from cards [].
+
+(* ------------------------------------------------------------------ *)
+(* one card                                                             *)
+(* ------------------------------------------------------------------ *)
 (* CCompositionMCNP.__init__: tokens -> (isotope, fraction) pairs; a token
    containing '=' is a keyword and is skipped; the isotope loses its library
    suffix; a missing fraction is an IndexError *)
@@ -34,20 +148,42 @@ Fixpoint pairs (toks : list string) : res (list (string * string)) :=
            end
   end.
 
-(* EIsotopeNameElement: symbol by atomic number (periodic table, written here
-   independently of the code; the tie compares it with the Python enum) *)
-Definition symbols : list string :=
-  ["H";"HE";"LI";"BE";"B";"C";"N";"O";"F";"NE";"NA";"MG";"AL";"SI";"P";"S";"CL";"AR";"K";"CA";
-   "SC";"TI";"V";"CR";"MN";"FE";"CO";"NI";"CU";"ZN";"GA";"GE";"AS";"SE";"BR";"KR";"RB";"SR";"Y";"ZR";
-   "NB";"MO";"TC";"RU";"RH";"PD";"AG";"CD";"IN";"SN";"SB";"TE";"I";"XE";"CS";"BA";"LA";"CE";"PR";"ND";
-   "PM";"SM";"EU";"GD";"TB";"DY";"HO";"ER";"TM";"YB";"LU";"HF";"TA";"W";"RE";"OS";"IR";"PT";"AU";"HG";
-   "TL";"PB";"BI";"PO";"AT";"RN";"FR";"RA";"AC";"TH";"PA";"U";"NP";"PU";"AM";"CM";"BK";"CF";"ES";"FM";
-   "MD";"NO";"LR";"RF";"DB";"SG";"BH";"HS";"MT";"DS";"RG";"CN";"NH";"FL";"MC";"LV";"TS";"OG"].
+(* the two enums, from the strings the code builds them from *)
+Definition atomic_names : list string := split_ws
+  ("1 2 3 4 5 6 7 8 9 10 11 12 13 14 15 16 17 18 19 20 21 22 23 24 " ++
+   "25 26 27 28 29 30 31 32 33 34 35 36 37 38 39 40 " ++
+   "41 42 43 44 45 46 47 48 49 50 51 52 53 54 55 56 " ++
+   "57 58 59 60 61 62 63 64 65 66 67 68 69 70 71 72 " ++
+   "73 74 75 76 77 78 79 80 81 82 83 84 85 86 87 88 " ++
+   "89 90 91 92 93 94 95 96 97 98 99 100 101 102 103 " ++
+   "104 105 106 107 108 109 110 111 112 113 114 115 " ++
+   "116 117 118").
+Definition element_names : list string := split_ws
+  ("H HE LI BE B C N O F NE NA " ++
+   "MG AL SI P S CL AR K CA SC TI V CR MN FE CO NI CU " ++
+   "ZN GA GE AS SE BR KR RB SR Y ZR NB MO TC RU RH PD " ++
+   "AG CD IN SN SB TE I XE CS BA LA CE PR ND PM SM EU " ++
+   "GD TB DY HO ER TM YB LU HF TA W RE OS IR PT AU HG " ++
+   "TL PB BI PO AT RN FR RA AC TH PA U NP PU AM CM BK " ++
+   "CF ES FM MD NO LR RF DB SG BH HS MT DS RG CN NH " ++
+   "FL MC LV TS OG").
 
-Definition symbol (z : N) : string := nth (N.to_nat z - 1) symbols "?".
+Fixpoint index_of (s : string) (l : list string) (i : N) : option N :=
+  match l with
+  | [] => None
+  | x :: r => if String.eqb s x then Some i else index_of s r (N.succ i)
+  end.
+(* getattr(EIsotopeAtomicNumber, name).value; None = AttributeError *)
+Definition atomic_value (name : string) : option N := index_of name atomic_names 1%N.
+(* EIsotopeNameElement(value).name; None = ValueError *)
+Definition element_name (v : N) : option string :=
+  if (v =? 0)%N then None else nth_error element_names (N.to_nat (v - 1)).
 
-(* convert_isotope: (atomic number, mass number) of a ZAID string *)
-Definition convert_isotope (iso : string) : res (N * N) :=
+(* symbol by atomic number (used by the abstract reading of a card) *)
+Definition symbol (z : N) : string := match element_name z with Some s => s | None => "?" end.
+
+(* convert_isotope: (enum value, str(int(last three characters))) *)
+Definition convert_isotope (iso : string) : res (N * string) :=
   let iso := take_until "." iso in
   let n := length iso in
   let tail := if Nat.leb n 3 then iso else take_last 3 iso in
@@ -57,23 +193,25 @@ Definition convert_isotope (iso : string) : res (N * N) :=
   | Some a =>
       match int_of_string head with
       | None => Err EValue
-      | Some z => if ((1 <=? z) && (z <=? 118))%N then Ok (z, a) else Err EAttribute
+      | Some z => match atomic_value (dec z) with
+                  | None => Err EAttribute
+                  | Some v => Ok (v, dec a)
+                  end
       end
   end.
 
-(* extract_isotopes_fractions: T4 nuclide name *)
-Definition isotope_name (z a : N) : string :=
-  symbol z ++ (if (a =? 0)%N then "-NAT" else dec a).
-
-(* fraction sign test and str_fabs *)
+(* fraction sign test and str_fabs (tokens of split() carry no blanks and are
+   not empty, so .strip() is the identity on them) *)
 Definition is_negative (frac : string) : bool := starts_with_char "-" (lstrip frac).
 Definition str_fabs (frac : string) : string :=
   match frac with String "-" r => r | _ => frac end.
 
-(* compositionConversionMCNPToT4 for one card: names with absolute fractions
-   and the atom_fracs flag (None for a card without nuclides) *)
+(* compositionConversionMCNPToT4, the loop over one card: ((element, mass
+   label), absolute fraction) and the atom_fracs flag (None for a card without
+   nuclides); mass label '0' becomes '-NAT' *)
+Definition iso_t4 := (string * string)%type.
 Fixpoint convert_entries (l : list (string * string)) (atom : option bool)
-  : res (list (string * string) * option bool) :=
+  : res (list (iso_t4 * string) * option bool) :=
   match l with
   | [] => Ok ([], atom)
   | (iso, frac) :: r =>
@@ -82,21 +220,56 @@ Fixpoint convert_entries (l : list (string * string)) (atom : option bool)
       if clash then Err EMixedSigns else
       match convert_isotope iso with
       | Err e => Err e
-      | Ok (z, a) =>
-          match convert_entries r (Some positive) with
-          | Err e => Err e
-          | Ok (l', fl) => Ok ((isotope_name z a, str_fabs frac) :: l', fl)
+      | Ok (v, mass) =>
+          match element_name v with
+          | None => Err EValue
+          | Some el =>
+              let mass_t4 := if String.eqb mass "0" then "-NAT" else mass in
+              match convert_entries r (Some positive) with
+              | Err e => Err e
+              | Ok (l', fl) => Ok (((el, mass_t4), str_fabs frac) :: l', fl)
+              end
           end
       end
   end.
 
-Definition convert_card (toks : list string) : res (list (string * string) * option bool) :=
+(* extract_isotopes_fractions: T4 nuclide names; a mass label starting with
+   '0' is re-read as an integer *)
+Definition isotope_name (i : iso_t4) : res string :=
+  let (el, mass) := i in
+  if starts_with_char "0" mass then
+    match int_of_string mass with
+    | Some k => Ok (el ++ dec k)
+    | None => Err EValue
+    end
+  else Ok (el ++ mass).
+Definition extract (l : list (iso_t4 * string)) : res (list (string * string)) :=
+  mapM (fun e => match isotope_name (fst e) with Ok n => Ok (n, snd e) | Err x => Err x end) l.
+
+(* one card up to the names (compositionConversionMCNPToT4 +
+   extract_isotopes_fractions) *)
+Definition card_out := res (list (string * string) * option bool).
+Definition convert_card (toks : list string) : card_out :=
   match pairs toks with
   | Err e => Err e
-  | Ok l => convert_entries l None
+  | Ok l => match convert_entries l None with
+            | Err e => Err e
+            | Ok (es, fl) => match extract es with Ok ns => Ok (ns, fl) | Err e => Err e end
+            end
   end.
 
-(* ---- numeric half: rescale_fractions, generic in the scalar ---- *)
+(* all the cards of the deck: parseMCNPComposition builds every
+   CCompositionMCNP first, compositionConversionMCNPToT4 then converts every
+   card — used by a cell or not *)
+Definition abundances := (list (iso_t4 * string) * option bool)%type.
+Definition convert_all (mats : list (N * list string)) : res (list (N * abundances)) :=
+  bind (mapM (fun kv => match pairs (snd kv) with Ok l => Ok (fst kv, l) | Err e => Err e end) mats)
+       (mapM (fun kv => match convert_entries (snd kv) None with
+                        | Ok a => Ok (fst kv, a) | Err e => Err e end)).
+
+(* ------------------------------------------------------------------ *)
+(* cells, blocks, text                                                  *)
+(* ------------------------------------------------------------------ *)
 Section Numeric.
   Context {T : Type} (S : Scalar T).
 
@@ -107,16 +280,155 @@ Section Numeric.
     let total := ssum fracs in
     map (fun f => sdiv S (smul S f conc) total) fracs.
 
-  (* constructCompositionT4 + writeT4Composition, one (card, cell density):
-     negative density -> DENSITY block with the card's absolute fractions,
-     flagged NB_ATOM iff the card's entries are positive; otherwise POINT_WISE
-     with rescaled concentrations (nothing if the card has mass fractions) *)
-  Inductive block :=
-  | BDensity (nb_atom : bool) (names : list string)
-  | BPointWise (concs : list (string * T)).
+  (* what constructCompositionT4 reads of a cell of the final dictionary *)
+  Record cell := mkCell {
+    c_imp : T;                 (* importance *)
+    c_univ : Z;                (* universe *)
+    c_filled : bool;           (* fillid is not None *)
+    c_mat : Z;                 (* int(materialID) *)
+    c_dens : option string     (* stored density string; None for a void cell *)
+  }.
 
-  Definition block_of (names : list string) (atom : bool) (fracs : list T) (density : T) : block :=
-    if sltb S density (s0 S) then BDensity atom names
-    else if atom then BPointWise (combine names (rescale fracs density))
-    else BPointWise [].
+  Definition live (c : cell) : bool :=
+    negb (sleb S (c_imp c) (s0 S)) && (c_univ c =? 0)%Z && negb (c_filled c).
+
+  Inductive body :=
+  | BStr (items : list (string * string))   (* amounts copied from the card *)
+  | BNum (items : list (string * T)).       (* amounts computed *)
+
+  Record block := mkBlock {
+    b_pw : bool;               (* POINT_WISE (else DENSITY) *)
+    b_mat : N;
+    b_dens : string;           (* normalize_float(density) *)
+    b_body : body;
+    b_atom : option bool       (* atom_fracs of the card *)
+  }.
+
+  (* parameters: normalize_float, float(normalize_float(.)) with None for
+     ValueError, and the '%.15e' rendering of the j-th amount of a block *)
+  Context (norm : string -> string) (fval : string -> option T)
+          (rend : string -> nat -> T -> string).
+
+  Fixpoint all_some {A} (l : list (option A)) : option (list A) :=
+    match l with
+    | [] => Some []
+    | None :: _ => None
+    | Some x :: r => match all_some r with Some xs => Some (x :: xs) | None => None end
+    end.
+
+  (* rescale_fractions *)
+  Definition rescale_entries (entries : list (string * string)) (conc : T)
+    : res (list (string * T)) :=
+    match all_some (map (fun e => fval (snd e)) entries) with
+    | None => Err EValue
+    | Some fs =>
+        match fs with
+        | [] => Ok []
+        | _ => if seqb S (ssum fs) (s0 S) then Err EZeroDiv
+               else Ok (combine (map fst entries) (rescale fs conc))
+        end
+    end.
+
+  Definition mem (x : string) (l : list string) : bool := existsb (String.eqb x) l.
+
+  (* the block written for a material used at density string d (value fd) *)
+  Definition block_for (key : N) (entries : list (string * string)) (atom : option bool)
+             (d : string) (fd : T) : res block :=
+    if sltb S fd (s0 S) then Ok (mkBlock false key (norm d) (BStr entries) atom)
+    else match atom with
+         | Some true =>
+             match rescale_entries entries fd with
+             | Ok cs => Ok (mkBlock true key (norm d) (BNum cs) atom)
+             | Err e => Err e
+             end
+         | _ => Ok (mkBlock true key (norm d) (BStr []) atom)   (* warning branch *)
+         end.
+
+  (* the loop over the cells for one material *)
+  Fixpoint scan (key : N) (entries : list (string * string)) (atom : option bool)
+           (cells : list cell) (seen : list string) : res (list block) :=
+    match cells with
+    | [] => Ok []
+    | c :: r =>
+        if negb (live c) then scan key entries atom r seen
+        else if negb (c_mat c =? Z.of_N key)%Z then scan key entries atom r seen
+        else match c_dens c with
+             | None => Err EType
+             | Some d =>
+                 if mem d seen then scan key entries atom r seen
+                 else match fval d with
+                      | None => Err EValue
+                      | Some fd =>
+                          match block_for key entries atom d fd with
+                          | Err e => Err e
+                          | Ok b => match scan key entries atom r (d :: seen) with
+                                    | Ok bs => Ok (b :: bs)
+                                    | Err e => Err e
+                                    end
+                          end
+                      end
+             end
+    end.
+
+  (* constructCompositionT4: materials in card order, only those with blocks *)
+  Fixpoint construct (mats : list (N * abundances)) (cells : list cell)
+    : res (list (N * list block)) :=
+    match mats with
+    | [] => Ok []
+    | (key, (isos, atom)) :: r =>
+        match extract isos with
+        | Err e => Err e
+        | Ok entries =>
+            match scan key entries atom cells [] with
+            | Err e => Err e
+            | Ok bs => match construct r cells with
+                       | Err e => Err e
+                       | Ok rest => match bs with [] => Ok rest | _ => Ok ((key, bs) :: rest) end
+                       end
+            end
+        end
+    end.
+
+  (* writeT4Composition *)
+  Definition block_name (b : block) : string := "m" ++ dec (b_mat b) ++ "_" ++ b_dens b.
+
+  Definition body_items (b : block) : list (string * string) :=
+    match b_body b with
+    | BStr l => l
+    | BNum l => map (fun ix => (fst (snd ix), rend (block_name b) (fst ix) (snd (snd ix))))
+                    (combine (seq 0 (List.length l)) l)
+    end.
+
+  Definition header_line (b : block) : string :=
+    let n := dec (N.of_nat (List.length (body_items b))) in
+    if b_pw b then "POINT_WISE 300 " ++ block_name b ++ " " ++ n
+    else "DENSITY 300 " ++ block_name b ++ " " ++ str_fabs (b_dens b) ++ " "
+         ++ (match b_atom b with Some true => "NB_ATOM" | _ => "" end) ++ " " ++ n.
+
+  Definition item_line (e : string * string) : string := "  " ++ fst e ++ " " ++ snd e.
+
+  (* '\n  '.join(...) after a leading '\n  ': an empty list still gives one line *)
+  Definition item_lines (l : list (string * string)) : list string :=
+    match l with [] => ["  "] | _ => map item_line l end.
+
+  Definition block_lines (b : block) : list string := header_line b :: item_lines (body_items b).
+
+  Definition all_blocks (d : list (N * list block)) : list block := flat_map snd d.
+
+  Definition void_lines : list string := ["POINT_WISE 300 m0 1"; "  HE4 1E-30"].
+
+  Definition composition_lines_of (d : list (N * list block)) : list string :=
+    [""; "COMPOSITION"; dec (N.of_nat (List.length (all_blocks d)) + 1)]
+    ++ flat_map block_lines (all_blocks d)
+    ++ void_lines ++ [""; "END_COMPOSITION"].
+
+  (* the text written: every line is followed by a newline *)
+  Definition text_of (lines : list string) : string :=
+    fold_right (fun l acc => l ++ String "010" acc) "" lines.
+
+  (* the whole path: contents of the data cards + final cell dictionary *)
+  Definition composition_lines (cards : list string) (cells : list cell) : res (list string) :=
+    bind (get_materials cards) (fun mats =>
+    bind (convert_all mats) (fun conv =>
+    bind (construct conv cells) (fun d => Ok (composition_lines_of d)))).
 End Numeric.
